@@ -140,7 +140,7 @@ class Hierarchy:
 
 DEVIATIONS = ['none', 'none', 'missing-signature-value', 'signature-type-mismatch', 'mismatched-identity', 'hmac-with-public-key', 'wrong-issuer-level', 'forged-signature', 'substituted-key', 'cert-timeout', 'cert-nack', 'unsigned',
               'no-key-locator', 'locator-loop', 'foreign-hierarchy', 'digest-signed', 'keychain-holds-unanchored-cert', 'forged-cert-served-on-second-request', 'locator-is-prefix-of-anchor-name',
-              'refused-by-the-application-function']
+              'refused-by-the-application-function', 'locator-names-the-certificate-by-its-full-name']
 _KC = {}
 
 
@@ -321,6 +321,15 @@ def build_case(rng, depth, dev, link=None):
         H.issue(1, Key(rng, 'ec', H.keys[1].name), 0, replace=True, locator=[bytes(c) for c in H.keys[0].name])
         for l2 in range(2, depth + 1):
             H.issue(l2, Key(rng, 'ec', H.keys[l2].name), l2 - 1, replace=True)
+    elif dev == 'locator-names-the-certificate-by-its-full-name':
+        # the key locator names the signer's certificate by its FULL name (certificate name + implicit digest of that very packet): one
+        # way of naming a retrievable certificate - the chain is as valid as with the short name
+        import hashlib as _hl
+        lvl_ = depth
+        full_ = H.cert_names[lvl_] + [rc.comp(1, _hl.sha256(H.cert_wires[lvl_]).digest())]
+        data = H.data(rng, suffix, signer=H.keys[lvl_].signer(full_))
+        H.alias = {tuple(full_): H.cert_wires[lvl_]}
+        link = depth + 1
     elif dev == 'refused-by-the-application-function':
         # a perfectly signed packet whose name the schema's user function (as THIS application defines it) does not let pass
         valid = False
